@@ -204,7 +204,7 @@ Proof.
   induction k as [|k IH]; intros s z has fuel Hk Hr Hf; (destruct fuel as [|f]; [lia|]); cbn [loop].
   all: assert (Hnil : s = [] -> rbind (rawtext_body no_tmpl raw (z, has)) (fun x => match x with Cont s' => loop f (rawtext_body no_tmpl raw) s' | Brk r => Ok r end) = Ok (mv z 0, has)).
   1,3: intros ->; unfold rawtext_body; destruct (reads_end z [] Hr) as [Hp _]; change (len (@nil Z)) with 0 in Hp;
-       unfold pkr; rewrite Hp; cbn [opt_res rbind Z.eqb]; rewrite tmpl_at_none; cbn [rbind];
+       unfold pkr; rewrite Hp; cbn [opt_res rbind]; rewrite skip_tmpl_none; cbn [rbind Z.eqb];
        pose proof (reads_eof0_end z [] Hr) as He; change (len (@nil Z)) with 0 in He; rewrite mv_0 in He; rewrite He; cbn [rbind]; rewrite mv_0; reflexivity.
   - destruct s; [|cbn [length] in Hk; lia]. rewrite (Hnil eq_refl). reflexivity.
   - destruct s as [|c t]; [rewrite (Hnil eq_refl); reflexivity|]. clear Hnil. cbn [length] in Hk, Hf.
@@ -214,9 +214,9 @@ Proof.
     assert (Hone : rbind (Ok (Cont (mv z 1, has))) (fun x : lp (lx * bool) (lx * bool) => match x with Cont s' => loop f (rawtext_body no_tmpl raw) s' | Brk r => Ok r end) =
                    Ok (mv z (1 + raw_end k raw t), has)).
     { cbn [rbind]. rewrite (IH t (mv z 1) has f ltac:(lia) Hr1 ltac:(lia)). rewrite mv_mv. reflexivity. }
-    cbn [raw_end]. unfold rawtext_body at 1. rewrite Hpk0. cbn [rbind].
+    cbn [raw_end]. unfold rawtext_body at 1. rewrite Hpk0. cbn [rbind]. rewrite skip_tmpl_none. cbn [rbind].
     destruct (c =? 60) eqn:E60.
-    2:{ rewrite tmpl_at_none. cbn [rbind]. pose proof (reads_eof0_in z _ 0 c Hr (peekz_cons_0 _ _)) as He. rewrite mv_0 in He. rewrite He. apply Hone. }
+    2:{ pose proof (reads_eof0_in z _ 0 c Hr (peekz_cons_0 _ _)) as He. rewrite mv_0 in He. rewrite He. apply Hone. }
     rewrite (reads_pk0 z _ 1 Hr) by lia. change (skipz 1 (c :: t)) with t. cbn [rbind].
     destruct (hd0 t =? 47) eqn:E47.
     { (* "</" + letters *)
@@ -261,6 +261,7 @@ Proof.
     set (t4 := skipz 3 t) in *.
     assert (Hl4 : (length t4 + 3 = length t)%nat).
     { assert (len t4 = len t - 3) by (unfold t4; apply len_skipz; lia). unfold len in *. lia. }
+    unfold script_comment_loop_body. rewrite loop_with_no_tmpl.
     rewrite (esc_run (length t4) t4 (mv z 4) false (fuel_of z) (le_n _) Hr4).
     2:{ pose proof (fuel_of_enough z (c :: t) (len (c :: t)) Hr ltac:(lia)) as Hfe. unfold len in Hfe at 1. rewrite Nat2Z.id in Hfe. cbn [length] in Hfe. lia. }
     destruct (esc_end (length t4) false t4) as [n b] eqn:Ee. cbn [rbind].
@@ -268,10 +269,11 @@ Proof.
     (* back in script data after "-->" *)
     assert (Hn : 0 <= n <= len t4).
     { (* the cursor returned by the section loop is inside the input *)
-      destruct (safe_inv _ _ (script_comment_spec (mv z 4) false (proj1 Hr4) (fuel_of z) ltac:(unfold fuel_of, lx_len; cbn [mv lbuf lpos]; lia))) as (rr & Err & Hadv).
+      destruct (safe_inv _ _ (script_comment_spec no_tmpl (mv z 4) false has cfg_ok_no_tmpl (proj1 Hr4) (fuel_of z) ltac:(unfold fuel_of, lx_len; cbn [mv lbuf lpos]; lia))) as (rr & Err & Hadv).
+      unfold script_comment_loop_body in Err. rewrite loop_with_no_tmpl in Err.
       rewrite (esc_run (length t4) t4 (mv z 4) false (fuel_of z) (le_n _) Hr4) in Err.
       2:{ pose proof (fuel_of_enough z (c :: t) (len (c :: t)) Hr ltac:(lia)) as Hfe. unfold len in Hfe at 1. rewrite Nat2Z.id in Hfe. cbn [length] in Hfe. lia. }
-      rewrite Ee in Err. injection Err as <-. cbn [sum_adv] in Hadv. destruct Hadv as (_ & _ & A3).
+      rewrite Ee in Err. cbn [rbind] in Err. injection Err as <-. cbn [sum_adv fst] in Hadv. destruct Hadv as (_ & _ & A3).
       destruct Hr4 as [Hw4 Hrem4]. pose proof (len_rem _ Hw4) as L4. rewrite Hrem4 in L4. cbn [mv lpos] in A3. cbn [mv lpos] in L4.
       unfold lx_len in *. cbn [mv lbuf] in *. lia. }
     pose proof (reads_mv _ _ n Hr4 Hn) as Hr5. rewrite mv_mv in Hr5.
